@@ -94,6 +94,13 @@ SupersFrom(CT, Ts) == LET nxt == Ts \cup UNION {DirectSupers(CT, t) : t \in {u \
                       IF nxt = Ts THEN Ts ELSE SupersFrom(CT, nxt)
 Supers(CT, S) == SupersFrom(CT, {S})      \* S and the transitive closure of its declared supertypes
 
+\* transitive supertypes by *textual* substitution of the arguments (what instantiation means in the statement of C07)
+TextualDirect(CT, S) == {Subst(CT[S.n].sup[i], ParamMap(CT, S)) : i \in DOMAIN CT[S.n].sup}
+RECURSIVE TextualFrom(_, _)
+TextualFrom(CT, Ts) == LET nxt == Ts \cup UNION {TextualDirect(CT, t) : t \in {u \in Ts : u.k = "C"}} IN
+                       IF nxt = Ts THEN Ts ELSE TextualFrom(CT, nxt)
+SupersTextual(CT, S) == TextualFrom(CT, {S})
+
 \* ---- subtyping and containment ------------------------------------------------------------------------------------
 \* imp = TRUE adds the implicit rules: every type is below the top type, "out Top" is the star projection,
 \* an unbounded variable is below the top type only.
@@ -108,14 +115,18 @@ SubX(CT, S, T, imp) ==
         \/ \E i \in DOMAIN CT[S.n].sup : SubX(CT, Up(CT, CT[S.n].sup[i], ParamMap(CT, S)), T, imp)
   \/ /\ S.k = "V" /\ Len(S.a) = 1 /\ SubX(CT, S.a[1], T, imp)
   \/ /\ S.k = "V" /\ T.k = "V" /\ S.n = T.n                     \* variables compare by name
-ContX(CT, A, B, v, imp) ==
+ContX(CT, A0, B, v, imp) ==
+  \* a star projection on the left is "in Bottom" where a consumer is expected and "out Top" elsewhere
+  LET want == IF B.k = "W" THEN B.n ELSE v
+      A == IF A0.k = "W" /\ A0.n = "star" /\ want # "star"
+           THEN (IF want = "in" THEN Wild("in", <<Bot>>) ELSE Wild("out", <<TopT>>)) ELSE A0 IN
   IF B.k = "W" THEN
      CASE B.n = "star" -> TRUE
        [] B.n = "out" -> \/ imp /\ B.a[1] = TopT
                          \/ IF A.k = "W" THEN A.n = "out" /\ SubX(CT, A.a[1], B.a[1], imp) ELSE SubX(CT, A, B.a[1], imp)
        [] B.n = "in"  -> IF A.k = "W" THEN A.n = "in" /\ SubX(CT, B.a[1], A.a[1], imp) ELSE SubX(CT, B.a[1], A, imp)
   ELSE
-     CASE v = "inv" -> A = B                                   \* syntactic identity, as in JLS 4.10.2
+     CASE v = "inv" -> A0 = B                                  \* syntactic identity, as in JLS 4.10.2
        [] v = "out" -> IF A.k = "W" THEN A.n = "out" /\ SubX(CT, A.a[1], B, imp) ELSE SubX(CT, A, B, imp)
        [] v = "in"  -> IF A.k = "W" THEN A.n = "in"  /\ SubX(CT, B, A.a[1], imp) ELSE SubX(CT, B, A, imp)
 
